@@ -36,6 +36,7 @@ def seeds():
         det = m.get('detected_by', {})
         hit = ['%s (%s)' % (c, r.get('tier', 'quick')) for c, r in sorted(det.items()) if r.get('exit') == 1]
         miss = [c for c, r in sorted(det.items()) if r.get('exit') == 0]
+        miss += ['%s (before it was strengthened)' % c for c in m.get('missed_before_strengthening', [])]
         rows.append('| %s | %s | %s | %s | %s |' % (m['id'], m['property'], title.replace('|', '\\|')[:150],
                                                    ', '.join(hit) or '**none yet**', ', '.join(miss)))
     return '\n'.join(rows)
